@@ -1,5 +1,5 @@
 #!/bin/bash
-# usage: tools/confirm_seed.sh <ID>   (worktree /tmp/wt/<ID> with the change applied, patch.diff, meta.json, demo test in place)
+# usage: tools/confirm_seed.sh <TAG>  (TAG = property id, optionally with a suffix letter for a second change)   (worktree /tmp/wt/<ID> with the change applied, patch.diff, meta.json, demo test in place)
 # Confirms: builds; full existing suite passes with the change (demo moved aside); demo fails with the change, passes without.
 # On success copies patch.diff, demo and meta.json to /verif/seeded/<ID>/ with confirm.log.
 set -u
